@@ -443,12 +443,17 @@ func jsonNameCases(yield func(*ConvCase) bool) bool {
 		{Name: "T", Fields: []*Field{
 			F("foo_bar", 1, Int32), F("foo_bar_baz", 2, String).WithJSON("XyZ"), F("_lead", 3, Bool), FM("with_1num", 4, "Inner"),
 			F("UPPER_case", 5, Int64).Repeated(), F("plain", 6, String).MapOf(String), F("spaced", 7, Int32).WithJSON("a b"), F("uni", 8, Int32).WithJSON("né\"q"),
+			// JSON names that need escaping beyond the quote: a backslash, a control character
+			F("bsl", 9, String).WithJSON("a\\kb"), F("ctl", 10, Int32).WithJSON("t\tb"), FM("bsl_in", 11, "Inner").WithJSON("C:\\temp"),
 		}}},
 		Svcs: []*Service{OneMethodService("T", "T")}}
 	prog := &Program{Name: "jsonnames", Main: "main.proto", Files: []*File{f}}
-	for mask := 1; mask < 256; mask++ {
+	for mask := 1; mask < 2048; mask++ {
+		if mask >= 256 && mask&255 != 0 && mask&255 != 255 {
+			continue // the three escape-needing names: every subset of themselves, alone and with all the others
+		}
 		mask := mask
-		c := &ConvCase{Prog: prog, What: fmt.Sprintf("json names mask=%08b", mask), Focus: "json-names", Has64: mask&16 != 0,
+		c := &ConvCase{Prog: prog, What: fmt.Sprintf("json names mask=%011b", mask), Focus: "json-names", Has64: mask&16 != 0,
 			Build: func(ref *Ref) protoreflect.Message {
 				m := dynamicpb.NewMessage(ref.Msg(Pkg + ".T"))
 				fs := m.Descriptor().Fields()
@@ -476,6 +481,16 @@ func jsonNameCases(yield func(*ConvCase) bool) bool {
 				}
 				if mask&128 != 0 {
 					m.Set(fs.ByNumber(8), protoreflect.ValueOfInt32(8))
+				}
+				if mask&256 != 0 {
+					m.Set(fs.ByNumber(9), protoreflect.ValueOfString("nine"))
+				}
+				if mask&512 != 0 {
+					m.Set(fs.ByNumber(10), protoreflect.ValueOfInt32(10))
+				}
+				if mask&1024 != 0 {
+					sub := m.Mutable(fs.ByNumber(11)).Message()
+					sub.Set(sub.Descriptor().Fields().ByName("iv"), protoreflect.ValueOfInt32(11))
 				}
 				return m
 			}}
